@@ -229,3 +229,177 @@ Qed.
 Lemma rs_finished s k ca cb :
   finished (ir_a (rs s k ca cb)) && finished (ir_b (rs s k ca cb)) = true.
 Proof. apply ileave_finished, rs_fuel_enough. Qed.
+
+(* ------------------------------------------------------------------ one process alone *)
+Fixpoint solo (fuel : nat) (k : ktab) (p : proc) : ktab * proc :=
+  match fuel with
+  | O => (k, p)
+  | S fuel' => if finished p then (k, p) else solo fuel' (nk k p) (np k p)
+  end.
+
+Lemma solo_finished_id f k p : finished p = true -> solo f k p = (k, p).
+Proof. intros F. destruct f; cbn [solo]; now rewrite ?F. Qed.
+
+Lemma solo_cost f : forall k p, length (fst (solo f k p)) + pcost (snd (solo f k p)) <= length k + pcost p.
+Proof.
+  induction f as [|f IH]; intros k p; cbn [solo]; [cbn; lia|].
+  destruct (finished p) eqn:F; [cbn; lia|].
+  specialize (IH (nk k p) (np k p)). pose proof (step1_cost k p F). lia.
+Qed.
+
+Lemma solo_fuel f1 : forall f2 k p, length k + pcost p <= f1 -> length k + pcost p <= f2 ->
+  solo f1 k p = solo f2 k p.
+Proof.
+  induction f1 as [|f1 IH]; intros f2 k p H1 H2.
+  - assert (F : finished p = true) by (apply pcost_zero; lia). now rewrite !solo_finished_id.
+  - destruct (finished p) eqn:F; [now rewrite !solo_finished_id|].
+    destruct f2 as [|f2]; [rewrite pcost_unfinished in H2 by assumption; lia|].
+    cbn [solo]. rewrite F. pose proof (step1_cost k p F). apply IH; lia.
+Qed.
+
+Lemma solo_finished f : forall k p, length k + pcost p <= f -> finished (snd (solo f k p)) = true.
+Proof.
+  induction f as [|f IH]; intros k p H.
+  - cbn. apply pcost_zero. lia.
+  - cbn [solo]. destruct (finished p) eqn:F; [exact F|].
+    apply IH. pose proof (step1_cost k p F). lia.
+Qed.
+
+(* picks all of one process: the other one did not move *)
+Lemma ileave_all_true f : forall s k a b, all_eq true (ir_picks (ileave f s k a b)) = true ->
+  ir_b (ileave f s k a b) = b /\ (ir_k (ileave f s k a b), ir_a (ileave f s k a b)) = solo f k a.
+Proof.
+  induction f as [|f IH]; intros s k a b H; [now cbn|].
+  cbn [ileave solo] in *. destruct (finished a && finished b) eqn:F.
+  - cbn. split; [reflexivity|]. destruct (finished a); [reflexivity|discriminate].
+  - destruct (pick s a b) eqn:P; cbn [ir_picks all_eq ir_b ir_k ir_a] in *; [|discriminate].
+    rewrite (pick_true _ _ _ F P). apply IH. exact H.
+Qed.
+Lemma ileave_all_false f : forall s k a b, all_eq false (ir_picks (ileave f s k a b)) = true ->
+  ir_a (ileave f s k a b) = a /\ (ir_k (ileave f s k a b), ir_b (ileave f s k a b)) = solo f k b.
+Proof.
+  induction f as [|f IH]; intros s k a b H; [now cbn|].
+  cbn [ileave solo] in *. destruct (finished a && finished b) eqn:F.
+  - cbn. split; [reflexivity|]. destruct (finished b); [reflexivity|]. now rewrite andb_false_r in F.
+  - destruct (pick s a b) eqn:P; cbn [ir_picks all_eq ir_b ir_k ir_a] in *; [discriminate|].
+    rewrite (pick_false _ _ _ F P). apply IH. exact H.
+Qed.
+
+(* the other process is finished: a run of one process alone *)
+Lemma ileave_b_done f : forall s k a b, finished b = true ->
+  ir_k (ileave f s k a b) = fst (solo f k a) /\ all_eq true (ir_picks (ileave f s k a b)) = true.
+Proof.
+  induction f as [|f IH]; intros s k a b Fb; [now cbn|].
+  cbn [ileave solo]. rewrite Fb, andb_true_r. destruct (finished a) eqn:Fa; [now cbn|].
+  rewrite (pick_b_finished s a b Fa Fb). cbn [ir_k ir_picks all_eq Bool.eqb]. now apply IH.
+Qed.
+
+Lemma serial_picks_cons x l : serial_picks (x :: l) = true ->
+  all_eq (negb x) l = true \/ (exists l', l = x :: l') /\ serial_picks l = true.
+Proof.
+  cbn [serial_picks]. destruct l as [|y r]; [now left|].
+  destruct (Bool.eqb x y) eqn:E.
+  - apply Bool.eqb_prop in E. subst y. intros H. right. split; [now exists r|exact H].
+  - intros H. left. destruct x, y; cbn in E; try discriminate; exact H.
+Qed.
+
+(* a first, then b *)
+Definition solo2 (f : nat) (k : ktab) (a b : proc) : ktab := fst (solo f (fst (solo f k a)) b).
+
+Lemma solo2_step f k a b : finished a = false -> cost2 k a b <= S f ->
+  solo2 (S f) k a b = solo2 f (nk k a) (np k a) b.
+Proof.
+  intros F H. unfold solo2.
+  assert (E : solo (S f) k a = solo f (nk k a) (np k a)) by (cbn [solo]; now rewrite F).
+  rewrite E. clear E.
+  pose proof (step1_cost k a F) as H1. pose proof (solo_cost f (nk k a) (np k a)) as H2.
+  unfold cost2 in H. f_equal. apply solo_fuel; lia.
+Qed.
+Lemma solo2_done f k a b : finished a = true -> solo2 f k a b = fst (solo f k b).
+Proof. intros F. unfold solo2. now rewrite (solo_finished_id f k a F). Qed.
+
+Lemma ileave_serial f : forall s k a b, cost2 k a b <= f ->
+  serial_picks (ir_picks (ileave f s k a b)) = true ->
+  ir_k (ileave f s k a b) =
+  match ir_picks (ileave f s k a b) with false :: _ => solo2 f k b a | _ => solo2 f k a b end.
+Proof.
+  induction f as [|f IH]; intros s k a b HC HS.
+  - reflexivity.
+  - pose proof (ileave_finished (S f) s k a b HC) as HF.
+    cbn [ileave] in *. destruct (finished a && finished b) eqn:F.
+    + cbn [ir_k ir_picks]. apply andb_true_iff in F as [Fa Fb].
+      now rewrite solo2_done, solo_finished_id.
+    + destruct (pick s a b) eqn:P; cbn [ir_k ir_a ir_b ir_picks] in *.
+      * pose proof (pick_true _ _ _ F P) as Fa. pose proof (step1_cost k a Fa) as H1.
+        assert (HC' : cost2 (nk k a) (np k a) b <= f) by (unfold cost2 in *; lia).
+        rewrite solo2_step by assumption.
+        apply serial_picks_cons in HS as [HA|[[l' HL] HS]].
+        -- cbn [negb] in HA. apply ileave_all_false in HA as [E1 E2].
+           rewrite E1 in HF. apply andb_true_iff in HF as [Fa' _].
+           rewrite solo2_done by assumption. now rewrite <- E2.
+        -- rewrite (IH _ _ _ _ HC' HS). now rewrite HL.
+      * pose proof (pick_false _ _ _ F P) as Fb. pose proof (step1_cost k b Fb) as H1.
+        assert (HC' : cost2 (nk k b) a (np k b) <= f) by (unfold cost2 in *; lia).
+        assert (HC2 : cost2 k b a <= S f) by (unfold cost2 in *; lia).
+        assert (HC3 : cost2 (nk k b) (np k b) a <= f) by (unfold cost2 in *; lia).
+        rewrite solo2_step by assumption.
+        apply serial_picks_cons in HS as [HA|[[l' HL] HS]].
+        -- cbn [negb] in HA. apply ileave_all_true in HA as [E1 E2].
+           rewrite E1 in HF. apply andb_true_iff in HF as [_ Fb'].
+           rewrite solo2_done by assumption. now rewrite <- E2.
+        -- rewrite (IH _ _ _ _ HC' HS). now rewrite HL.
+Qed.
+
+(* [serial_ab] is a-alone followed by b-alone *)
+Lemma start_nil_finished : finished (start []) = true.
+Proof. reflexivity. Qed.
+
+Lemma rs_alone_k k c : ir_k (rs [] k c []) = fst (solo (rs_fuel k c []) k (start c)).
+Proof. unfold rs. now apply ileave_b_done. Qed.
+
+Lemma serial_ab_rs k ca cb : serial_ab k ca cb = ir_k (rs [] (ir_k (rs [] k ca [])) cb []).
+Proof. unfold serial_ab. rewrite run_sched_rs. rewrite run_sched_rs. reflexivity. Qed.
+
+Lemma alone_fuel_enough k c : length k + pcost (start c) <= rs_fuel k c [].
+Proof. pose proof (rs_fuel_enough k c []) as H. unfold cost2 in H. lia. Qed.
+
+Lemma serial_ab_solo2 f k ca cb : cost2 k (start ca) (start cb) <= f ->
+  serial_ab k ca cb = solo2 f k (start ca) (start cb).
+Proof.
+  intros H. rewrite serial_ab_rs, !rs_alone_k. unfold solo2, cost2 in *.
+  pose proof (alone_fuel_enough k ca) as H1.
+  rewrite (solo_fuel (rs_fuel k ca []) f k (start ca)) by lia.
+  pose proof (solo_cost f k (start ca)) as H2.
+  apply f_equal. apply solo_fuel; [apply alone_fuel_enough|lia].
+Qed.
+
+(* (c): serial picks give the serial outcome of the corresponding order *)
+Definition serial_of_picks (l : list bool) (k : ktab) (ca cb : list instr) : ktab :=
+  match l with false :: _ => serial_ab k cb ca | _ => serial_ab k ca cb end.
+
+Lemma serial_picks_serial_eq s k ca cb :
+  serial_picks (ir_picks (rs s k ca cb)) = true ->
+  ir_k (rs s k ca cb) = serial_of_picks (ir_picks (rs s k ca cb)) k ca cb.
+Proof.
+  intros HS. unfold rs in *. pose proof (rs_fuel_enough k ca cb) as HC.
+  rewrite (ileave_serial _ _ _ _ _ HC HS). unfold serial_of_picks.
+  assert (HC2 : cost2 k (start cb) (start ca) <= rs_fuel k ca cb) by (unfold cost2 in *; lia).
+  destruct (ir_picks _) as [|[|] ?]; symmetry; now apply serial_ab_solo2.
+Qed.
+
+Definition run_final (r : ktab * proc * proc * trace) : ktab := fst (fst (fst r)).
+Definition run_trace (r : ktab * proc * proc * trace) : trace := snd r.
+Lemma run_final_rs s k ca cb : run_final (run_sched s k ca cb) = ir_k (rs s k ca cb).
+Proof. now rewrite run_sched_rs. Qed.
+Lemma run_trace_rs s k ca cb :
+  run_trace (run_sched s k ca cb) = MkTr (ir_picks (rs s k ca cb)) (ir_st (rs s k ca cb)).
+Proof. now rewrite run_sched_rs. Qed.
+
+Theorem serial_picks_serial : forall s k ca cb,
+  serial_picks (tr_picks (run_trace (run_sched s k ca cb))) = true ->
+  ktab_eq (run_final (run_sched s k ca cb))
+          (serial_of_picks (tr_picks (run_trace (run_sched s k ca cb))) k ca cb) = true.
+Proof.
+  intros s k ca cb. rewrite run_final_rs, run_trace_rs. cbn [tr_picks]. intros H.
+  apply ktab_eq_of_eq. now apply serial_picks_serial_eq.
+Qed.
